@@ -1,15 +1,9 @@
-"""Registry of claimed properties -> MANIFEST.json (tools/gen_manifest.py).  One entry per built check."""
-CHECKS = {
- "C02": dict(level="model_checking", design_ref="8/C02", technique="TLC-generated exact reference table (Gates.tla, unitarity model-checked) replayed into qp.matrix",
-   text="TLC enumerates every named gate over the whole angle lattice (theta = a*4pi/2^M), computes the documented matrix exactly in Z[zeta_N][1/2], "
-        "proves it unitary, and the driver replays every instance into PennyLane (qp.matrix, op.matrix, broadcast kernel, reversed wire listing). "
-        "Exhaustive inside the lattice; the lattice over-determines the degree-1 trigonometric entries.",
-   note="Reference table transcribed by hand from the docstrings (spec/ir/Gates.tla); floats compared at 1e-8; real angles off the lattice are covered by the trigonometric-polynomial argument only."),
- "C17": dict(level="model_checking", design_ref="8/C17", technique="relational trace validation: TLC recomputes exact unitaries of recorded pass inputs/outputs (CircuitEq.tla)",
-   text="Each pass is a relational action ApplyPass(in,out) enabled iff U(out) = U(in) up to phase; the driver records real pass inputs/outputs on generated circuits "
-        "and TLC decides the relation exactly in the cyclotomic ring; any exception on a valid circuit is a violation. Off-lattice outputs (fusion) are compared numerically against TLC's exact input unitary.",
-   note="Angles on the lattice 4pi/16; passes covered so far: cancel_inverses, merge_rotations, commute_controlled, undo_swaps, remove_barrier, combine_global_phases, single_qubit_fusion, compile; bridged comparisons at 1e-6."),
-}
+"""Registry of claimed properties -> MANIFEST.json (tools/gen_manifest.py).
+One JSON file per built check in harness/registry.d/<ID>.json with keys level, design_ref, technique, text, note."""
+import json
+from pathlib import Path
+
+CHECKS = {p.stem: json.loads(p.read_text()) for p in sorted((Path(__file__).parent / "registry.d").glob("C*.json"))}
 NOT_APPLICABLE = {
  "C48": "relational statement between four floating-point array back-ends: no abstract state or transition, the only oracle is another interface (differential testing, a different family)",
  "C62": "numerical quadrature / SCF / FCI compared with a second numerical code; nothing lives in an exact domain a TLA+ specification can hold",
